@@ -1,5 +1,6 @@
 import Autog.Model.Phase5
 import Autog.Lemmas.BreakMergeChains
+import Autog.Properties.C05
 /-! # C06 — route geometry matches the routing style
 
     Theorems about the router formulas of the model (Autog/Model/Phase5.lean, compared with the real routers by `T:phase5`
@@ -124,6 +125,44 @@ theorem C06_polyline_point_count (g : G) (ns : List Nat) (mids : List Pt) (hlen 
   have := (C06_polyline_bends g ns mids h).1
   simp only [List.length_append, List.length_cons, List.length_nil]
   omega
+
+/-- C06 (Ortho), for the router as a whole: when it returns, every routed edge that held no points before — and whose chain runs
+    between the edge's own two end nodes — consists solely of horizontal and vertical segments -/
+theorem C06_ortho_router (ls : Rat) (g g' : G) (routes : List (Nat × List Nat)) (h : routeOrtho ls g routes = .ok g')
+    (hnd : (routes.map (·.1)).Nodup) (hb : ∀ r ∈ routes, r.1 < g.edges.size) (hempty : ∀ r ∈ routes, (g.edge r.1).pts = [])
+    (hends : ∀ r ∈ routes, (r.2.head! = (g.edge r.1).src ∧ r.2.getLast! = (g.edge r.1).dst) ∨
+                           (r.2.head! = (g.edge r.1).dst ∧ r.2.getLast! = (g.edge r.1).src)) :
+    ∀ r ∈ routes, AxisPar (g'.edge r.1).pts := by
+  have := (routeFold_spec (orthoStep ls)
+    (fun g r p => (g.edge r.1).pts = [] →
+      ((r.2.head! = (g.edge r.1).src ∧ r.2.getLast! = (g.edge r.1).dst) ∨
+       (r.2.head! = (g.edge r.1).dst ∧ r.2.getLast! = (g.edge r.1).src)) → AxisPar p)
+    (fun g r g1 hs => by
+      unfold orthoStep at hs
+      simp only at hs
+      split at hs
+      · cases hs
+      · split at hs
+        · rename_i hal
+          simp only [pure, Except.pure, Except.ok.injEq] at hs
+          refine ⟨_, hs.symm, fun _ he => ?_⟩
+          have hal' : (g.node (g.edge r.1).src).x + (g.node (g.edge r.1).src).w / 2 =
+              (g.node (g.edge r.1).dst).x + (g.node (g.edge r.1).dst).w / 2 := by simpa using hal
+          simp only [straight, startPoint, endPoint, AxisPar, and_true]
+          left
+          rcases he with ⟨h1, h2⟩ | ⟨h1, h2⟩
+          · rw [h1, h2]; exact hal'
+          · rw [h1, h2]; exact hal'.symm
+        · simp only [pure, Except.pure, Except.ok.injEq] at hs
+          refine ⟨_, hs.symm, fun he _ => ?_⟩
+          rw [he, List.nil_append]
+          exact C06_ortho_axis_parallel g ls _ r.2)
+    (fun g e q r p hne hp he hc => by
+      have hsd : ((setPts g e q).edge r.1).src = (g.edge r.1).src ∧ ((setPts g e q).edge r.1).dst = (g.edge r.1).dst := by
+        unfold setPts; rw [G.edge_modEdge]; split <;> exact ⟨rfl, rfl⟩
+      exact hp (by rw [pts_setPts_ne g e r.1 q hne]; exact he) (by rw [hsd.1, hsd.2]; exact hc)) routes g g' h hnd hb).1
+  intro r hr
+  exact this r hr (hempty r hr) (hends r hr)
 
 /-- break/merge: the route of a merged edge is its chain (lemma library) -/
 theorem C06_chain_last_real : type_of% @BreakMergeChains.Linked.last_real := @BreakMergeChains.Linked.last_real
